@@ -205,7 +205,9 @@ func date(y int, m time.Month, d int) time.Time { return time.Date(y, m, d, 0, 0
 
 func (g *Gen) batchDates(now time.Time) (time.Time, time.Time) {
 	var start time.Time
-	switch g.R.Weighted([]float64{5, 1, 1, 1, 2, 1}) {
+	switch g.R.Weighted([]float64{5, 1, 1, 1, 2, 1, 0.7}) {
+	case 6: // the far ends of the valid timestamp range (years 0001 … 9999)
+		start = date(Pick(g.R, []int{1, 9, 99, 100, 987, 999, 1000, 9998}), time.Month(g.R.Range(1, 12)), g.R.Range(1, 28))
 	case 0:
 		start = date(now.Year()-g.R.Range(0, 12), time.Month(g.R.Range(1, 12)), g.R.Range(1, 28))
 	case 1:
